@@ -436,11 +436,13 @@ def run(case):
         tau = np.einsum("ijqc,kjqc->ikqc", P, F)
         J = np.linalg.det(np.moveaxis(F, (0, 1), (-2, -1)))
         voigt = [(0, 0), (1, 1), (2, 2), (0, 1), (1, 2), (0, 2)]
-        for stype, S in (("Cauchy", tau / J), ("Kirchhoff", tau), (None, P)):
+        # (every spelling of the stress type a caller may use -- solid.plot("Kirchhoff Stress") hands over the lower-case word;
+        #  the labels are title-case in every case)
+        for stype, S in (("Cauchy", tau / J), ("Kirchhoff", tau), (None, P), ("kirchhoff", tau), ("KIRCHHOFF", tau), ("cauchy", tau / J), ("CAUCHY", tau / J)):
             v = fem.ViewSolid(field, solid=body, stress_type=stype)
             cd = v.mesh.cell_data
             c.trans += 1
-            label = f"{stype} Stress" if stype else "Stress"
+            label = f"{stype.title()} Stress" if stype else "Stress"
             if label not in cd.keys():
                 c.bad(f"{stype}/label", "stress cell data label", sorted(cd.keys()), label)
                 continue
